@@ -2,6 +2,8 @@ from __future__ import annotations
 
 import typing
 
+from urwid.util import get_encoding_mode
+
 from .constants import BAR_SYMBOLS, Align, Sizing, WrapMode
 from .text import Text
 from .widget import Widget
@@ -121,7 +123,7 @@ class ProgressBar(Widget):
         ccol_dirty = int(cf)
         ccol = len(c._text[0][:ccol_dirty].decode("utf-8", "ignore").encode("utf-8"))
         cs = 0
-        if self.satt is not None:
+        if self.satt is not None and get_encoding_mode() == "utf8":
             cs = int((cf - ccol) * 8)
         if ccol < 0 or (ccol == cs == 0):
             c._attr = [[(self.normal, maxcol)]]
